@@ -158,7 +158,6 @@ type chainCase struct {
 	cmp     *valgen.Cmp
 	log     []string
 	watched map[string]reflect.Type
-	checkedAfterFailedWrite, checkedAfterRejected int
 	reads   int
 	classes map[string]int
 }
@@ -283,13 +282,11 @@ func (c *chainCase) query(b *block.Block, h *sim.History) {
 		rb, _ := enc(ref)
 		if !bytes.Equal(gb, rb) {
 			_, diff := c.cmp.Equiv(got, ref)
-			t.Fatalf("%s", vkit.Violation("C07", findingWalkOr("cache-differs-from-trie:"+kd.name), "REST-style read of %q at block round %d differs from the trie of that block; first difference %s :: %s", name, b.Round, diff, c.render(h)))
+			t.Fatalf("%s", vkit.Violation("C07", "cache-differs-from-trie:"+kd.name, "REST-style read of %q at block round %d differs from the trie of that block; first difference %s :: %s", name, b.Round, diff, c.render(h)))
 		}
 	}
 	c.classes["rest_query_at_closed_block"]++
 }
-
-func findingWalkOr(k string) string { return k }
 
 // lateValidator: storagesc add_validator stores the validator node and the validator partitions (cacheable
 // Partitions / partition / location nodes) before it validates the stake pool settings.
@@ -481,9 +478,6 @@ func TestC07_ChainPath(t *testing.T) {
 			if wroteLate {
 				lateWrites++
 				c.classes["audit_after_"+outcome+"_call_that_wrote_state:"+action]++
-			}
-			if o.Rejected {
-				c.checkedAfterRejected++
 			}
 		}
 		st.Case()
